@@ -232,9 +232,9 @@ for b in BAUDS:
     h("c01_bits_to_time_" + b, "fdl_parameters.rs", PAV, ["C01"], tier="quick" if b in QUICK_BAUDS else "thorough", timeout_s=900,
       functions=["Baudrate::{bits_to_time,to_rate}"], bounds="baud rate %s, ALL bit counts 0..=2^25" % b,
       obligation="floor conversion in exact arithmetic: t*rate <= bits*10^6 < (t+1)*rate")
-    h("c01_tto_stagger_" + b, "fdl_parameters.rs", PAV, ["C01", "C06"], tier="quick" if b in QUICK_BAUDS else "thorough", timeout_s=1800, mem_gb=10, weight=2,
-      functions=["Parameters::{token_lost_timeout,slot_time,bits_to_time}", "min_slot_bits"], bounds="baud rate %s, ALL slot_bits >= the baud's minimum, ALL address pairs a < b <= 125" % b,
-      obligation="TTO(a) >= 6 slot times, TTO(b) - TTO(a) >= 2*(b-a) slot times, TTO == (6+2a)*slot_bits bit times rounded down")
+    h("c01_tto_stagger_" + b, "fdl_parameters.rs", PAV, ["C01", "C06"], tier="thorough", timeout_s=3600, mem_gb=10, weight=2,
+      functions=["Parameters::{token_lost_timeout,slot_time,bits_to_time}", "min_slot_bits"], bounds="baud rate %s, ALL slot_bits >= the baud's minimum, ALL adjacent address pairs (a, a+1), a <= 124" % b,
+      obligation="TTO(a) >= 6 slot times; 2 slot times <= TTO(a+1) - TTO(a) <= 2 slot times + 2 us (any pair a < b by induction)")
 h("c03_watchdog_factors", "fdl_parameters.rs", PAV, ["C03"], timeout_s=1800, mem_gb=10, weight=2, functions=["ParametersBuilder::watchdog_timeout", "watchdog_factors", "Parameters::watchdog_timeout"],
   bounds="ALL timeouts 10 ms ..= 650 s at microsecond resolution; factor search loop fully unwound (unwind 258)", obligation="factors in 1..=255, f1*f2*10 ms >= floor(timeout/10 ms)*10 ms, reported time == f1*f2*10 ms")
 
@@ -246,7 +246,7 @@ h("c02_model_remove", "fdl_token_ring.rs", TRV, ["C02", "C11"], timeout_s=900, f
   bounds="ALL ring views, ALL addresses != TS", obligation="NS' != a, only a leaves the LAS, state untouched, invariant kept")
 h("c02_model_witness", "fdl_token_ring.rs", TRV, ["C02"], timeout_s=1800, mem_gb=10, weight=2, functions=["reference model (Model::witness)"],
   bounds="ALL ring views, ALL (SA, DA) byte pairs", obligation="invalid addresses ignored; valid LAS: removes exactly the jumped-over addresses, adds SA, stays valid; own pass to NS and in-order passes change nothing (stability); invariant kept")
-h("c02_model_three_rotations_3", "fdl_token_ring.rs", TRV, ["C02"], timeout_s=2400, mem_gb=12, weight=3, functions=["reference model (Model::witness)"],
+h("c02_model_three_rotations_3", "fdl_token_ring.rs", TRV, ["C02"], tier="thorough", timeout_s=3600, mem_gb=12, weight=3, functions=["reference model (Model::witness)"],
   bounds="rings of 2..=3 stations at ANY addresses, listener at ANY address not in the ring, ANY start state and start point, 3 rotations; unwind 11", obligation="LAS valid == ring, NS/PS == cyclic neighbours of TS")
 h("c02_model_three_rotations_5_t", "fdl_token_ring.rs", TRV, ["C02"], tier="thorough", timeout_s=7200, mem_gb=16, weight=4, functions=["reference model (Model::witness)"],
   bounds="rings of 2..=5 stations; otherwise as _3; unwind 17", obligation="as _3")
